@@ -18,6 +18,8 @@ FEATURES_REPLAY = 'verif-hooks'
 
 MODPATH = {
     'lib': 'verif_harness',
+    'codec': 'verif_harness::codec',
+    'c11': 'mqtt::connection::core::verif_harness::c11',
     'core': 'mqtt::connection::core::verif_harness',
     'packet_builder': 'mqtt::connection::packet_builder::verif_harness',
     'store': 'mqtt::connection::store::verif_harness',
@@ -428,7 +430,8 @@ def check_property(prop, tier, seed, only=None):
         build_template()
         pool = DirPool(scratch)
         # regenerate generated harness sources, then work on a private snapshot of the harness directory
-        subprocess.run([sys.executable, os.path.join(ROOT, 'gen', 'gen_c18.py')], check=True)
+        for g in ('gen_c18.py', 'gen_c11.py'):
+            subprocess.run([sys.executable, os.path.join(ROOT, 'gen', g)], check=True)
         hsnap = os.path.join(scratch, 'harness')
         shutil.copytree(HARNESS_DIR, hsnap)
         ACTIVE['hdir'] = hsnap
